@@ -572,6 +572,7 @@ def now_raw(now):
 
 def execute(case, tmp, full_every=False):
     kind = case['kind']
+    full_every = full_every or bool(case.get('full'))
     run = Run()
     h = orc.History(dedupe=(kind != 'fs'))
     api = OracleAPI(h)
@@ -784,12 +785,21 @@ CASE_TIMEOUT = 40.0       # a case normally takes well under a second
 SHRINK_TIMEOUT = 6.0
 
 
-def judge(case, tmp, timeout, full_every=False):
+def judge(case, tmp, timeout, full_every=False, confirm=False):
     """execute and compare with the oracle: (run | None, signature | None, diff | None)"""
     try:
         run = with_timeout(lambda: execute(case, tmp, full_every), timeout)
     except CaseTimeout:
-        return None, 'C04:%s:hang' % case['kind'], (0, 'no answer within %ds' % timeout, 'an answer')
+        if confirm:
+            # a loaded machine is not a hung storage: only a second, much longer wait counts
+            try:
+                run = with_timeout(lambda: execute(case, tmp, full_every), 8 * timeout)
+            except CaseTimeout:
+                run = None
+        else:
+            run = None
+        if run is None:
+            return None, 'C04:%s:hang' % case['kind'], (0, 'no answer within %ds' % timeout, 'an answer')
     d = oracle_diff(run)
     return run, (signature(case, run, d) if d is not None else None), d
 
@@ -844,7 +854,8 @@ def shrink(case, tmp, sig):
     if not fails_case(with_txns(txns)):
         txns = case['txns']
     if hang:
-        return with_txns(txns)
+        small = with_txns(txns)
+        return small if judge(small, tmp, CASE_TIMEOUT, confirm=True)[1] == sig else case
     # then ops inside each transaction, reopen flags, metadata
     for i in range(len(txns)):
         t = txns[i]
@@ -929,7 +940,7 @@ def gen_case(rng, kind, thorough=False):
             if rng.random() < 0.02:
                 t['u'] = ['m', 0x55, 65536]                 # rejected by _begin: aborted
         nops = rng.choice([0, 1, 1, 2, 2, 3, 4, 6]) if i else rng.choice([1, 1, 2, 3])
-        if kind == 'fs' and i == 0 and rng.random() < 0.03:
+        if kind == 'fs' and i == 0 and rng.random() < 0.06:
             nops = 0
             t['u'], t['d'], t['e'] = ['m', 0x41, rng.choice([0, 1, 3])], ['m', 0, 0], ['e', 0]
         for _ in range(nops):
@@ -968,6 +979,8 @@ def gen_case(rng, kind, thorough=False):
             t['reopen'] = rng.choice(['keep', 'drop'])
         txns.append(t)
     case = dict(kind=kind, txns=txns, qseed=rng.randrange(10 ** 6))
+    if thorough and rng.random() < 0.2:
+        case['full'] = True          # every oid x every tid boundary after EVERY transaction
     if kind == 'demo':
         case['base_n'] = rng.choice([0, 1, 1, 2, 3, ntx // 2])
         case['base_n'] = min(case['base_n'], ntx - 1) if ntx > 1 else 0
@@ -1011,7 +1024,7 @@ def work(args):
     timeout = CASE_TIMEOUT
     for case in cases:
         try:
-            run, sig, d = judge(case, tmp, timeout, full_every)
+            run, sig, d = judge(case, tmp, timeout, full_every, confirm=(timeout == CASE_TIMEOUT))
         except Exception as e:  # noqa: BLE001
             import traceback
             res['infra'] = 'executing a case failed: %r\n%s\ncase=%s' % (
